@@ -40,11 +40,11 @@ def esc_char(c, rnd, quote):
     o = ord(c)
     forms = []
     if c == "\n":
-        forms = ["\\n"]
+        forms = ["\\n", "\\n", "\n"]
     elif c == "\r":
-        forms = ["\\r"]
+        forms = ["\\r", "\\r", "\r"]
     elif c == "\t":
-        forms = ["\\t"]
+        forms = ["\\t", "\\t", "\t"]
     elif c == "\\":
         forms = ["\\\\"]
     elif c == "'":
@@ -202,6 +202,8 @@ class GrammarGen:
             pos = rnd.random() < self.o.p_position * 0.5
             if pos:
                 dirs.append("@position")
+            if rnd.random() < self.o.p_memo * 0.5:
+                dirs.append("@memoize")
             if not pos and rnd.random() < self.o.p_hooks * 0.5:
                 dirs.append("@check(%s%s)" % (self.hookpath, rnd.choice(["chk_str_short", "chk_str_noa", "chk_true"])))
             rnd.shuffle(dirs)
@@ -234,6 +236,8 @@ class GrammarGen:
                     dirs.append("@check(%s%s)" % (self.hookpath, rnd.choice(["chk_true", "chk_false", "chk_budget"] if self.ctx else ["chk_true", "chk_false"])))
                 if rnd.random() < self.o.p_position * 0.4:
                     dirs.append("@position")
+                if rnd.random() < self.o.p_memo * 0.4:
+                    dirs.append("@memoize")
                 self.rules_leaf.append(Rule(nm, dirs=dirs, body=("choice", [("seq", [("lit", lit, False)])])))
                 self.leaves.append(nm)
                 self.leaf_info[nm] = ("unit", lit)
@@ -257,7 +261,7 @@ class GrammarGen:
 
     def make_leftrec(self):
         rnd = self.rnd
-        shape = rnd.choice(["plain", "two_ops", "base_first", "indirect", "pos"])
+        shape = rnd.choice(["plain", "two_ops", "base_first", "indirect", "pos", "opt_suffix", "clo_suffix", "indirect_clo"])
         dirs = ["@leftrec"]
         if shape == "pos":
             dirs.append("@position")
@@ -273,6 +277,15 @@ class GrammarGen:
             body = ("choice", [("seq", [f("n", False, "Num"), ("neg", ("lit", "+", False))]),
                                ("seq", [f("left", True, "LR"), ("lit", "+", False), f("n", False, "Num")]),
                                ("seq", [f("n", False, "Num")])])
+        elif shape == "opt_suffix":   # the recursive alternative can match without consuming anything after the reference
+            body = ("choice", [("seq", [f("left", True, "LR"), ("opt", ("choice", [("seq", [("lit", "+", False), f("n", False, "Num")])]))]),
+                               ("seq", [f("n", False, "Num")])])
+        elif shape == "clo_suffix":
+            body = ("choice", [("seq", [f("left", True, "LR"), ("clo", ("choice", [("seq", [("lit", "+", False), f("n", False, "Num")])]), False)]),
+                               ("seq", [f("n", False, "Num")])])
+        elif shape == "indirect_clo":
+            body = ("choice", [("seq", [f("@", False, "LRx")]), ("seq", [f("@", False, "Num")])])
+            self.rules_leaf.append(Rule("LRx", body=("choice", [("seq", [f("head", True, "LR"), ("clo", ("choice", [("seq", [("lit", "+", False), f("tail", False, "Num")])]), False)])])))
         else:  # indirect through a non-memoized rule
             body = ("choice", [("seq", [f("left", True, "LRi"), ("lit", "+", False), f("n", False, "Num")]),
                                ("seq", [f("n", False, "Num")])])
